@@ -351,6 +351,10 @@ def mech_for(kind, iface, cfgname, spec, flags, exc=None, probe=None):
                 return "adjoint:op-data-vs-num_params-mismatch:MultiControlledX"
             if probe is not None and probe():
                 return "adjoint:multiparam-op-shifts-param-index"
+            if ename == "IndexError" and ("vjp" in base or "jvp" in base) and nonstandard_wires(spec):
+                # default.qubit's compute_vjp / compute_jvp (device_vjp=True) hand the tape to adjoint_vjp/jvp without mapping its wires
+                # to 0..n-1 first (compute_derivatives does): IndexError in the tensordot kernels on non-standard wire orders
+                return "adjoint-vjp-jvp:IndexError:nonstandard-wires"
             obs_params = any(m["kind"] != "probs" and m["obs"][0] in ("herm", "sum", "proj") for m in spec["meas"])
             if nonstandard_wires(spec) and (nontr or obs_params):
                 return "adjoint:map_to_standard_wires-resets-trainable"
